@@ -13,6 +13,7 @@ from guppylang_internals.ast_util import AstNode, has_empty_body, with_loc
 from guppylang_internals.checker.core import Context, Globals
 from guppylang_internals.checker.errors.comptime_errors import (
     PytketSignatureMismatch,
+    PytketUnitsOutsideRegisters,
     TketNotInstalled,
 )
 from guppylang_internals.checker.expr_checker import check_call, synthesize_call
@@ -390,6 +391,21 @@ def _signature_from_circuit(
                 angle_ty = angle_defn.check_instantiate([])
 
                 if use_arrays:
+                    # `q_registers` / `c_registers` only list registers that are
+                    # indexed contiguously from zero. Any other qubit or bit has no
+                    # array to live in, and wiring it up would silently misalign all
+                    # arguments of the circuit.
+                    if (
+                        sum(q_reg.size for q_reg in input_circuit.q_registers)
+                        != input_circuit.n_qubits
+                        or sum(c_reg.size for c_reg in input_circuit.c_registers)
+                        != input_circuit.n_bits
+                    ):
+                        units_err = PytketUnitsOutsideRegisters(defined_at)
+                        units_err.add_sub_diagnostic(
+                            PytketUnitsOutsideRegisters.Fix(None)
+                        )
+                        raise GuppyError(units_err)
                     inputs = [
                         FuncInput(array_type(qubit_ty, q_reg.size), InputFlags.Inout)
                         for q_reg in input_circuit.q_registers
